@@ -78,9 +78,19 @@ def _worker(func_module, func_name, inq, outq):
     import importlib
     mod = importlib.import_module(func_module)
     func = getattr(mod, func_name)
+    cov = None
+    if os.environ.get("VERIF_COVERAGE"):      # tools/coverage_report.sh only: which library lines do the drivers reach
+        import coverage
+        cov = coverage.Coverage(data_file=os.path.join(os.environ["VERIF_COVERAGE"], "cov"), data_suffix=True,
+                                source=[os.path.join(os.environ.get("FLOWPATHS_ROOT", "/repo"), "flowpaths")])
+        cov.start()
+    n = 0
     while True:
         item = inq.get()
         if item is None:
+            if cov is not None:
+                cov.stop()
+                cov.save()
             return
         idx, task = item
         outq.put(("start", idx, os.getpid(), time.time()))
@@ -88,6 +98,9 @@ def _worker(func_module, func_name, inq, outq):
             res = func(task)
         except BaseException as e:  # harness failure, not a verdict
             res = {"harness_error": f"{type(e).__name__}: {e}", "tb": traceback.format_exc()[-800:]}
+        n += 1
+        if cov is not None and n % 25 == 0:
+            cov.save()
         outq.put(("done", idx, os.getpid(), res))
 
 
